@@ -124,11 +124,11 @@ def inv (p : Parsed R) (x y : R) : Option (R × R) :=
   let phiP := Scalar.asin sinPhiP
   let sinLamP := (Scalar.cos phiPP * Scalar.sin lamPP) / Scalar.cos phiP
   let lamP := Scalar.asin sinLamP
-  let bigC := (bigK - Scalar.ln (Scalar.tan (fracPi4 + 0.5 * phiP))) / c
+  let bigC := (Scalar.ln (Scalar.tan (fracPi4 + 0.5 * phiP)) - bigK) / c
   let lam := (lamP / c) + lam0
   -- every pass either breaks or decrements `j`, so `maxIterations` passes exhaust the loop
   let s := (List.range maxIterations).foldl (fun s _ => iterStep bigC e s)
-    ({ phi := phiP, prevPhi := phiP, j := maxIterations } : Iter R)
+    ({ phi := phiP, prevPhi := Scalar.nan, j := maxIterations } : Iter R)
   if s.j == 0 then none else some (lam, s.phi)
 
 def sem (p : Parsed R) (dir : Dir) (data : List (Coor R)) : List (Coor R) × Nat :=
